@@ -70,9 +70,18 @@ def request_for(G, A, x, under_test=None):
     return http["method"], uri, body, headers, exp_field, exp_text, plain
 
 def find(ctx, oblig, diag):
+    if "de_multipart" in oblig or ":form." in oblig:
+        # the POST-form binding of PutObject: forms built and signed by the reference implementation
+        res = None
+        for v in ("nested-meta", "field-whitespace", "valid", "binary-file"):
+            r = ctx["replay_tool"](["post-form", v])
+            if r is not None: res = r
+            if r is not None and r.get("violates"):
+                r["source"] = "form built and signed by the reference POST-policy implementation"; return r
+        return res
     G = _gen(ctx)
     A = G.analyse({"repo": ctx["repo"], "info": {}})
-    m = re.search(r"C0[23]:(de|ser)\.(\w+)\.(.+)$", oblig)
+    m = re.search(r"C0[0-9,C]*:(de|ser)\.(\w+)\.(.+)$", oblig)
     if not m:
         m2 = re.search(r"\.(de|ser)_(\w+)\.", oblig)      # unlabelled failure inside one of the functions
         if not m2: return None
@@ -118,6 +127,10 @@ def find(ctx, oblig, diag):
 
 def standing(ctx, oblig, diag):
     """a fixed sample of operations, all members: used when the unit itself is undecided"""
+    # the POST-form binding of PutObject (deserialize_http_multipart): metadata fields whose keys begin with the prefix themselves
+    r = ctx["replay_tool"](["post-form", "nested-meta"])
+    if r is not None and r.get("violates"):
+        r["source"] = "form built and signed by the reference POST-policy implementation"; return r
     res = None
     for x in ("GetObject", "PutObject", "HeadObject", "ListObjectsV2", "DeleteObject", "CopyObject", "CreateMultipartUpload"):
         for side in ("de", "ser"):
